@@ -1,16 +1,23 @@
 """C18 peer penalties accumulate into bans that are enforced and expire.
 
 spec/ConnGater.tla is model checked exhaustively (gater with two IPs, one of them IPv6, all blacklists, sweep
-periods and phases; rate limiter with two procedures).  spec/MCConnGater.tla generates schedules (by simulation and,
-for short ones, exhaustively) together with the SET of states the specification allows after every step; the harness
-replays every schedule on a real connectionGater / rateLimit (one instance per schedule, all in parallel, 1 tick = 2 s
-of real time, every time-dependent decision >= 400 ms away from the instant that decides it) and requires the
-projected real state (score, banned, listBannedPeers, every Intercept* gate for several multiaddr forms of the IP) to
-be one of the allowed ones.  Loopback scenarios with real p2p.Connection hosts check the causes of penalties
-(malformed envelope, unknown procedure, rate limit, ApplyPenalty, BanPeer), the disconnect at the ban, refused
-re-dials in both directions, the expiry and the blacklist, and that legal traffic is never penalised.
+periods and phases; rate limiter with two peers behind one IP / two procedures).  spec/MCConnGater.tla generates
+schedules (by simulation and, for short ones, exhaustively) together with the SET of states the specification allows
+after every step; every penalty / message step and the blacklist configuration carry a SPELLING index of the address
+(dotted, IPv4-mapped IPv6, expanded / compressed / upper-case IPv6: one identity in the model).  The harness replays
+every schedule on a real connectionGater / rateLimit (one instance per schedule, all in parallel, 1 tick = 2 s of real
+time, every time-dependent decision >= 400 ms away from the instant that decides it) and requires the projected real
+state (score; every Intercept* gate for every spelling of the address) to be one of the allowed ones.  Schedules
+generated with Conc = TRUE issue all steps of a tick at the same instant from one goroutine per call while pollers ask
+the gates and a 20 ms sweep runs (expected: the union over all orders, computed by the specification); a part of them and
+all loopback scenarios run in a -race build.  Loopback scenarios with real p2p.Connection hosts on 127.0.0.1 /
+127.0.0.2 / 127.0.0.3 check the causes of penalties (envelope table on both streams, unknown procedure, rate limit
+with explicit and with default parameters, ApplyPenalty, BanPeer, the real sync handlers of a real node), on inbound and
+outbound connections, the disconnect at the ban, refused re-dials in both directions, the unaffected bystander, the
+expiry, the blacklist, two connections of one peer, and that legal traffic is never penalised.
 A schedule whose steps could not be placed inside their guard bands is inconclusive, never a violation."""
 import json, os, re, threading
+from concurrent.futures import ThreadPoolExecutor
 import common
 from common import Inconclusive, finish, log
 from props import c01
@@ -27,11 +34,25 @@ def cfg_const(text, name, default=None):
     return m.group(1).strip()
 
 
+def declared_defaults():
+    """defaultRateLimit / defaultRateLimitPenalty as declared in pkg/p2p/ratelimit.go (what a procedure registered without
+    WithRPCMessageCounter is supposed to get); (0, 0) when the declarations cannot be found"""
+    try:
+        src = open(os.path.join(common.REPO, "pkg", "p2p", "ratelimit.go")).read()
+        lim = re.search(r"(?m)^\s*(?:const\s+)?defaultRateLimit\s*=\s*(\d+)", src)
+        pen = re.search(r"(?m)^\s*(?:const\s+)?defaultRateLimitPenalty\s*=\s*(\d+)", src)
+        return (int(lim.group(1)), int(pen.group(1))) if lim and pen else (0, 0)
+    except Exception:
+        return (0, 0)
+
+
 def opts_from_cfg(text, **kw):
     procs = re.findall(r'"([^"]+)"', cfg_const(text, "Procs"))
+    dl, dp = declared_defaults()
     o = dict(ban_ticks=int(cfg_const(text, "BanTicks")), limit=int(cfg_const(text, "Limit")),
              rate_penalty=int(cfg_const(text, "RatePenalty")), max_score=int(cfg_const(text, "MaxScore")),
-             procs=procs or ["a", "b"], batch=4000, tol_ms=100)
+             procs=procs or ["a", "b"], batch=4500, tol_ms=100, retries=3, default_limit=dl, default_penalty=dp,
+             experimental=bool(os.environ.get("VERIF_EXPERIMENTAL")))
     o.update(kw)
     return o
 
@@ -54,14 +75,58 @@ def generate(ctx, name, text, **kw):
     return hs
 
 
-def run_replay(ctx, binp, hists, opts, tag):
+# ------------------------------------------------------------------------------------------------ race detector
+def parse_races(stderr):
+    """-> (races in lisk-engine [(key, text)], races inside the harness [text]) from the reports of a -race build"""
+    lisk, own = [], []
+    for blk in re.split(r"={18,}", stderr or ""):
+        if "WARNING: DATA RACE" not in blk:
+            continue
+        tops = []
+        for acc in re.split(r"\n(?=(?:Previous )?(?:[Rr]ead|[Ww]rite|atomic [a-z]+) at 0x)", blk):
+            if not re.match(r"(?:Previous )?(?:[Rr]ead|[Ww]rite|atomic [a-z]+) at 0x", acc.lstrip()):
+                continue
+            fr = re.findall(r"(?m)^  (\S+?)\(\)\n\s+(\S+):(\d+)", acc.split("\nGoroutine ")[0])
+            fr = [f for f in fr if not f[0].startswith(("runtime.", "sync.", "sync/atomic.", "internal/"))]
+            if fr:
+                tops.append(fr[0])
+        names = [t[0] for t in tops]
+        in_lisk = sorted([n for n in names if "github.com/LiskHQ/lisk-engine/pkg/" in n], key=lambda n: ").Verif" in n)   # the verif exports last
+        if in_lisk:
+            fn = re.sub(r"(\.func\d+)+$", "", in_lisk[0].replace("github.com/LiskHQ/lisk-engine/", ""))
+            lisk.append(("race:" + fn, "data race between %s" % " and ".join("%s (%s:%s)" % (t[0].split("/")[-1], os.path.basename(t[1]), t[2]) for t in tops)))
+        elif names and all(n.startswith("main.") for n in names):
+            own.append(" / ".join(names))
+    return lisk, own
+
+
+def note_races(ctx, p, replay, box):
+    lisk, own = parse_races(p.stderr)
+    box["races_parsed"] = box.get("races_parsed", 0) + len(lisk)
+    if own:
+        raise Inconclusive("the race detector reports a race inside the harness itself: %s" % own[0])
+    seen = set()
+    for key, what in lisk:
+        if key not in seen:
+            seen.add(key)
+            box.setdefault("race_violations", []).append(dict(key=key, what="-race build: " + what, replay=replay))
+
+
+RACE_ENV = dict(GORACE="exitcode=0 halt_on_error=0")
+
+
+def run_replay(ctx, binp, hists, opts, tag, race=False, box=None):
     hf = ctx.path("c18_%s_h.ndjson" % tag); of = ctx.path("c18_%s_res.json" % tag); pf = ctx.path("c18_%s_opts.json" % tag)
     with open(hf, "w") as fh:
         for h in hists:
             fh.write(json.dumps(h) + "\n")
     json.dump(opts, open(pf, "w"))
-    p = ctx.run([binp, "replay", hf, of, pf], timeout=1500)
+    p = ctx.run([binp, "replay", hf, of, pf], timeout=1500, env=RACE_ENV if race else None)
+    if race and box is not None:
+        note_races(ctx, p, dict(mode="conc-race", histories=hists[:40], opts=dict(ban_ticks=opts["ban_ticks"])), box)
     if p.returncode != 0 or not os.path.exists(of):
+        # a crash of the code under test (e.g. `fatal error: concurrent map writes`) is recorded by ctx.run and turned into a
+        # crash:<function> violation by bin/check
         raise Inconclusive("c18 replay failed: " + p.stderr[-1500:])
     res = json.load(open(of))
     if res.get("harness_errors"):
@@ -69,19 +134,48 @@ def run_replay(ctx, binp, hists, opts, tag):
     return res
 
 
-def run_e2e(ctx, binp, opts, tag, box):
+# loopback scenarios that close a gap: table scenarios with the number of cases that must have reached their verdict, and
+# groups of which at least one member must have run to the end
+REQUIRED = {"sync-requests": 5, "envelope-table": 7, "default-rate-limit": 1, "two-connections-one-peer": 2}
+REQUIRED_ANY = [("outbound-ban-peer", "outbound-apply-penalty-accumulates", "outbound-malformed-request", "outbound-unknown-procedure-response"),
+                ("rate-limit-parallel-burst",), ("blacklist",)]
+
+
+def run_e2e(ctx, binp, opts, tag, box, race=False):
     try:
-        of = ctx.path("c18_%s_res.json" % tag); pf = ctx.path("c18_%s_opts.json" % tag)
-        json.dump(opts, open(pf, "w"))
-        p = ctx.run([binp, "e2e", of, pf], timeout=600)
-        if p.returncode != 0 or not os.path.exists(of):
-            raise Inconclusive("c18 e2e failed: " + p.stderr[-1500:])
-        res = json.load(open(of))
-        if res.get("harness_errors"):
-            raise Inconclusive("c18 e2e harness error: %s" % res["harness_errors"][:3])
+        def once(o, t):
+            of = ctx.path("c18_%s_res.json" % t); pf = ctx.path("c18_%s_opts.json" % t)
+            json.dump(o, open(pf, "w"))
+            p = ctx.run([binp, "e2e", of, pf], timeout=600, env=RACE_ENV if race else None)
+            if race:
+                note_races(ctx, p, dict(mode="e2e-race"), box)
+            if p.returncode != 0 or not os.path.exists(of):
+                raise Inconclusive("c18 e2e failed: " + p.stderr[-1500:])
+            r = json.load(open(of))
+            if r.get("harness_errors"):
+                raise Inconclusive("c18 e2e harness error: %s" % r["harness_errors"][:3])
+            return r
+        res = once(opts, tag)
+        # scenarios that could not be run (a host that did not start in time on a loaded machine ...) get one more chance
+        again = [s["name"] for s in res.get("scenarios") or [] if s.get("inconclusive") and not s.get("violations")]
+        if again and not opts.get("scenarios"):
+            log("[c18] loopback scenarios repeated once: %s" % again)
+            r2 = once(dict(opts, scenarios=again), tag + "_retry")
+            by = {s["name"]: s for s in r2.get("scenarios") or []}
+            res["scenarios"] = [by.get(s["name"], s) if s["name"] in again else s for s in res["scenarios"]]
+            res["violations"] = (res.get("violations") or []) + (r2.get("violations") or [])
+            for k, v in (r2.get("violation_keys") or {}).items():
+                res["violation_keys"][k] = res["violation_keys"].get(k, 0) + v
         box["res"] = res
     except Exception as e:   # re-raised by the caller
         box["err"] = e
+
+
+def run_conc_race(ctx, binp, hists, opts, box):
+    try:
+        box["conc"] = run_replay(ctx, binp, hists, dict(opts, retries=1), "concrace", race=True, box=box)
+    except Exception as e:
+        box["conc_err"] = e
 
 
 def report(ctx, res):
@@ -89,11 +183,43 @@ def report(ctx, res):
         ctx.violation(v["key"], v["what"], v.get("replay"))
 
 
+def merge_into(res, res3):
+    for k, v in res3.items():
+        if isinstance(v, bool):
+            continue
+        if isinstance(v, int) and k != "max_step_skew_ms":
+            res[k] = res.get(k, 0) + v
+        elif isinstance(v, dict) and k in ("penalty_steps_by_spelling", "blacklists_by_spelling", "violation_keys"):
+            d = res.setdefault(k, {})
+            for kk, vv in v.items():
+                d[kk] = d.get(kk, 0) + vv
+    res["max_step_skew_ms"] = max(res.get("max_step_skew_ms", 0), res3.get("max_step_skew_ms", 0))
+    res["violations"] = (res.get("violations") or []) + (res3.get("violations") or [])
+
+
 def run(ctx):
-    binp = ctx.go_build("./cmd/c18")
+    quick = ctx.tier == "quick"
     gen_text = c01.cfg_text("ConnGater_gen")
     if ctx.replay:
         d = json.load(open(ctx.replay))["replay"]
+        if isinstance(d, dict) and d.get("mode") in ("e2e-race", "conc-race"):
+            binr = ctx.go_build("./cmd/c18", race=True)
+            box = {}
+            if d["mode"] == "e2e-race":
+                run_e2e(ctx, binr, opts_from_cfg(gen_text), "replay", box, race=True)
+            else:
+                o = opts_from_cfg(c01.cfg_text("ConnGater_conc")); o.update(d.get("opts") or {})
+                run_conc_race(ctx, binr, d["histories"], o, box)
+            for e in ("err", "conc_err"):
+                if e in box:
+                    raise box[e]
+            for v in box.get("race_violations") or []:
+                ctx.violation(v["key"], v["what"], v["replay"])
+            for r in (box.get("res"), box.get("conc")):
+                if r:
+                    report(ctx, r)
+            finish(ctx, LEVEL, dict(traces_validated_against_impl=1, samples=[d["mode"]], races_parsed=box.get("races_parsed", 0)))
+        binp = ctx.go_build("./cmd/c18")
         if isinstance(d, dict) and "e2e" in d:
             box = {}
             run_e2e(ctx, binp, opts_from_cfg(gen_text, scenarios=[d["e2e"]]), "replay", box)
@@ -108,97 +234,169 @@ def run(ctx):
         finish(ctx, LEVEL, dict(traces_validated_against_impl=res["histories"] - res["inconclusive_timing"],
                                 inconclusive_timing=res["inconclusive_timing"], samples=[d["history"]["steps"][:2]]))
 
-    quick = ctx.tier == "quick"
-    # loopback scenarios run while TLC and the replay are busy (they take 15..30 s of mostly idle waiting)
+    # the two builds at the same time (the -race build is only needed by the loopback scenarios and the concurrent subset)
+    ctx.harness()
+    with ThreadPoolExecutor(max_workers=2) as ex:
+        fb = ex.submit(ctx.go_build, "./cmd/c18")
+        fr = ex.submit(ctx.go_build, "./cmd/c18", True)
+        binp, binr = fb.result(), fr.result()
+    # loopback scenarios (in the -race build) run while TLC and the replay are busy (15..30 s of mostly idle waiting)
     box = {}
-    th = threading.Thread(target=run_e2e, args=(ctx, binp, opts_from_cfg(gen_text), "e2e", box))
+    th = threading.Thread(target=run_e2e, args=(ctx, binr, opts_from_cfg(gen_text), "e2e", box, True))
     th.start()
+    th_conc = None
+    replay_exc = None
+    res = None
+    hs, hs_short, hs_conc = [], [], []
+    r1 = r2 = None
     try:
-        # 1. the specification itself
-        exh = c01.cfg_text("ConnGater_exh", **(dict(MaxTime=5) if quick else dict(MaxTime=8)))
-        rate = c01.cfg_text("ConnGater_rate", **(dict(MaxTime=4) if quick else {}))
-        r1 = model_check(ctx, "exh", "ConnGater", exh, workers=16)
-        r2 = model_check(ctx, "rate", "ConnGater", rate, workers=16)
-        if not quick:
-            model_check(ctx, "exh_ban3", "ConnGater", c01.cfg_text("ConnGater_exh", BanTicks=3, MaxTime=7), workers=16)
-        # 2. schedules with the allowed states after every step
-        hs = generate(ctx, "gen", gen_text, workers=1, simulate=500 if quick else 12000, depth=90, seed=ctx.seed)
-        hs_short = generate(ctx, "short", c01.cfg_text("ConnGater_short", DumpEvery=8 if quick else 1), workers=8, seed=ctx.seed)
-        # traffic of both addresses on ONE procedure inside one rate window (up to 4 bursts per tick): a penalty of one peer
-        # must not change the count of another
-        hs_rate = generate(ctx, "gen_rate", c01.cfg_text("ConnGater_gen", MaxPerTick=4, Procs='{"a"}', Penalties="{50}"),
-                           workers=1, simulate=200 if quick else 4000, depth=90, seed=ctx.seed + 5)
-        hs = hs + hs_rate
-        if len(hs) < 100 or len(hs_short) < 100:
-            raise Inconclusive("too few schedules generated (%d, %d)" % (len(hs), len(hs_short)))
-        short_text = c01.cfg_text("ConnGater_short")
-        if opts_from_cfg(short_text)["ban_ticks"] != opts_from_cfg(gen_text)["ban_ticks"]:
-            raise Inconclusive("gen and short cfgs disagree on BanTicks")
-        # 3. replay on the real gater / rate limiter
-        res = run_replay(ctx, binp, hs + hs_short, opts_from_cfg(gen_text), "all")
-        if not quick:
-            # longer bans and a longer sweep period: other positions of the penalties relative to expiry and sweep
-            gen3 = c01.cfg_text("ConnGater_gen", BanTicks=3, MaxTime=7, SweepPeriods="{1, 2, 4}")
-            hs3 = generate(ctx, "gen_ban3", gen3, workers=1, simulate=3000, depth=100, seed=ctx.seed + 1)
-            res3 = run_replay(ctx, binp, hs3, opts_from_cfg(gen3), "ban3")
-            for k, v in res3.items():
-                if isinstance(v, int) and k != "max_step_skew_ms":
-                    res[k] = res.get(k, 0) + v
-            res["max_step_skew_ms"] = max(res["max_step_skew_ms"], res3["max_step_skew_ms"])
-            res["violations"] = (res.get("violations") or []) + (res3.get("violations") or [])
-            for k, v in (res3.get("violation_keys") or {}).items():
-                res["violation_keys"][k] = res["violation_keys"].get(k, 0) + v
-            for v in res3.get("violations") or []:
-                if isinstance(v.get("replay"), dict):
-                    v["replay"]["opts"] = dict(ban_ticks=3)
+        try:
+            conc_text = c01.cfg_text("ConnGater_conc", **({} if quick else dict(MaxPerTick=4, MaxTime=6)))
+            short_text = c01.cfg_text("ConnGater_short", **(dict(DumpEvery=16) if quick else dict(DumpEvery=8, Spellings="{0, 1}")))
+            # schedules whose ticks are concurrent; a part of them is replayed in the -race build right away
+            hs_conc = generate(ctx, "conc", conc_text, workers=1, simulate=100 if quick else 1500, depth=90, seed=ctx.seed + 9)
+            if len(hs_conc) < 40:
+                raise Inconclusive("too few concurrent schedules generated (%d)" % len(hs_conc))
+            th_conc = threading.Thread(target=run_conc_race, args=(ctx, binr, hs_conc[:40 if quick else 200], opts_from_cfg(conc_text), box))
+            th_conc.start()
+            # 1. the specification itself and 2. schedules with the allowed states after every step, three TLC runs at a time
+            exh = c01.cfg_text("ConnGater_exh", **(dict(MaxTime=5) if quick else dict(MaxTime=8)))
+            rate2 = c01.cfg_text("ConnGater_rate2", **(dict(MaxTime=4, SweepPeriods="{2}") if quick else {}))
+            jobs = dict(
+                exh=lambda: model_check(ctx, "exh", "ConnGater", exh, workers=8),
+                rate2=lambda: model_check(ctx, "rate2", "ConnGater", rate2, workers=4),
+                gen=lambda: generate(ctx, "gen", gen_text, workers=1, simulate=500 if quick else 12000, depth=90, seed=ctx.seed),
+                short=lambda: generate(ctx, "short", short_text, workers=4, seed=ctx.seed),
+                # traffic of both addresses and both peers on ONE procedure inside one rate window (up to 4 bursts per tick): a
+                # penalty of one peer must not change the count of another
+                gen_rate=lambda: generate(ctx, "gen_rate", c01.cfg_text("ConnGater_gen", MaxPerTick=4, Procs='{"a"}', Penalties="{50}"),
+                                          workers=1, simulate=200 if quick else 4000, depth=90, seed=ctx.seed + 5))
+            if not quick:
+                jobs["rate"] = lambda: model_check(ctx, "rate", "ConnGater", c01.cfg_text("ConnGater_rate"), workers=8)
+                jobs["exh_ban3"] = lambda: model_check(ctx, "exh_ban3", "ConnGater", c01.cfg_text("ConnGater_exh", BanTicks=3, MaxTime=7), workers=8)
+            with ThreadPoolExecutor(max_workers=3) as ex:
+                futs = {k: ex.submit(f) for k, f in jobs.items()}
+                out = {k: f.result() for k, f in futs.items()}
+            r1, r2 = out["exh"], out["rate2"]
+            hs, hs_short = out["gen"] + out["gen_rate"], out["short"]
+            if len(hs) < 100 or len(hs_short) < 100:
+                raise Inconclusive("too few schedules generated (%d, %d)" % (len(hs), len(hs_short)))
+            for t in (short_text, conc_text):
+                if opts_from_cfg(t)["ban_ticks"] != opts_from_cfg(gen_text)["ban_ticks"]:
+                    raise Inconclusive("gen, short and conc cfgs disagree on BanTicks")
+            # 3. replay on the real gater / rate limiter
+            res = run_replay(ctx, binp, hs + hs_short + hs_conc, opts_from_cfg(gen_text), "all")
+            if not quick:
+                # longer bans and a longer sweep period: other positions of the penalties relative to expiry and sweep
+                gen3 = c01.cfg_text("ConnGater_gen", BanTicks=3, MaxTime=7, SweepPeriods="{1, 2, 4}")
+                hs3 = generate(ctx, "gen_ban3", gen3, workers=1, simulate=3000, depth=100, seed=ctx.seed + 1)
+                res3 = run_replay(ctx, binp, hs3, opts_from_cfg(gen3), "ban3")
+                for v in res3.get("violations") or []:
+                    if isinstance(v.get("replay"), dict):
+                        v["replay"]["opts"] = dict(ban_ticks=3)
+                merge_into(res, res3)
+        except Inconclusive as e:
+            replay_exc = e
     finally:
         th.join()
+        if th_conc is not None:
+            th_conc.join()
+    # behaviour observed on the real code is reported whatever else could not be completed
+    e2e = box.get("res")
+    if e2e:
+        report(ctx, e2e)
+    for v in box.get("race_violations") or []:
+        ctx.violation(v["key"], v["what"], v["replay"])
+    if box.get("conc"):
+        report(ctx, box["conc"])
+    if res:
+        report(ctx, res)
+    if replay_exc:
+        raise replay_exc
     if "err" in box:
         raise box["err"]
-    e2e = box["res"]
-    report(ctx, res)
-    report(ctx, e2e)
+    concr = box.get("conc")
+    if "conc_err" in box and not concr:
+        if isinstance(box["conc_err"], Inconclusive) and "harness itself" in str(box["conc_err"]):
+            raise box["conc_err"]
+        log("[c18] note: concurrent subset in the -race build not completed: %s" % str(box["conc_err"])[:300])
+        if getattr(ctx, "real_panic", None):
+            raise Inconclusive("the -race replay of the concurrent schedules died: %s" % str(box["conc_err"])[:300])
     validated = res["histories"] - res["inconclusive_timing"]
     log("[c18] replay: schedules=%d validated=%d conforming=%d inconclusive(timing)=%d steps=%d observations=%d max skew %d ms keys=%s" % (
         res["histories"], validated, res["conforming"], res["inconclusive_timing"], res["steps"], res["observations"],
         res["max_step_skew_ms"], res["violation_keys"]))
+    conc_valid = res.get("concurrent_histories_validated", 0)
+    conc_ticks = res.get("concurrent_ticks", 0)
+    conc_race_valid = (concr or {}).get("concurrent_histories_validated", 0)
+    log("[c18] concurrent ticks: schedules validated=%d (+%d in the -race build) ticks=%d calls=%d poller rounds=%d races parsed=%d" % (
+        conc_valid, conc_race_valid, conc_ticks, res.get("concurrent_calls", 0), res.get("poller_rounds", 0), box.get("races_parsed", 0)))
     scen = e2e.get("scenarios") or []
     inc_scen = [s["name"] for s in scen if s.get("inconclusive")]
-    log("[c18] loopback: scenarios=%d inconclusive=%s checks=%d keys=%s" % (
+    log("[c18] loopback (-race build): scenarios=%d inconclusive=%s checks=%d keys=%s" % (
         len(scen), inc_scen, sum(len(s.get("checks") or []) for s in scen), e2e["violation_keys"]))
     # what could not be established; a violation observed on the real code is reported in any case
+    pen_sp = res.get("penalty_steps_by_spelling") or {}
+    bl_sp = res.get("blacklists_by_spelling") or {}
+    mapped = lambda d: sum(v for k, v in d.items() if k.startswith("v4:ip6-mapped"))
+    by_name = {s["name"]: s for s in scen}
+    missing = [n for n, c in REQUIRED.items() if n not in by_name or by_name[n].get("inconclusive") or (by_name[n].get("cases") or 0) < c]
+    missing += ["one of " + "/".join(grp) for grp in REQUIRED_ANY if not any(n in by_name and not by_name[n].get("inconclusive") for n in grp)]
     problem = None
-    if validated * 2 < res["histories"]:
+    # timing: on a loaded machine many schedules miss their guard bands (they are re-run up to 3 times, then dropped); what was
+    # validated must still be a substantial sample (the content of the sample is guarded by the counters below)
+    if validated < max(800 if quick else 3000, 0.3 * res["histories"]):
         problem = "%d of %d schedules could not be placed inside their timing guard bands" % (res["inconclusive_timing"], res["histories"])
     elif min(res["steps_expect_banned"], res["steps_in_expiry_window"], res["steps_expect_clean_after_ban"],
              res["msg_steps_must_penalise"], res["msg_steps_must_not_penalise"]) == 0 and not res["violation_keys"]:
         problem = "schedules did not exercise ban / expiry window / lift / rate limit: vacuous"
-    elif len(scen) < 8 or len(inc_scen) * 2 > len(scen):
+    elif mapped(pen_sp) == 0 or pen_sp.get("v4:dotted", 0) == 0 or mapped(bl_sp) == 0:
+        problem = "no penalty or no blacklist configuration used the IPv4-mapped spelling of the IPv4 address: vacuous (%s / %s)" % (pen_sp, bl_sp)
+    elif res.get("ticks_with_two_peers_of_one_ip_on_one_procedure", 0) == 0:
+        problem = "no schedule had two peers of one address on one procedure in one rate window: vacuous"
+    elif conc_valid + conc_race_valid < 20 or conc_ticks == 0:
+        problem = "concurrent ticks were not exercised (%d + %d schedules, %d ticks)" % (conc_valid, conc_race_valid, conc_ticks)
+    elif len(scen) < 12 or len(inc_scen) * 2 > len(scen):
         problem = "loopback scenarios could not be run: %s" % [(s["name"], s.get("inconclusive")) for s in scen if s.get("inconclusive")][:4]
+    elif missing:
+        problem = "loopback scenarios that close a gap did not reach their verdict: %s" % [(n, (by_name.get(n) or {}).get("inconclusive"), (by_name.get(n) or {}).get("cases")) for n in missing][:4]
     if problem and not ctx.violations:
         raise Inconclusive(problem)
     if problem:
         log("[c18] note: " + problem)
     cov = dict(traces_validated_against_impl=validated + len(scen) - len(inc_scen),
-               samples=[dict(blocked=hs[0]["blocked"], period=hs[0]["period"], phase=hs[0]["phase"], steps=hs[0]["steps"][:3])],
+               samples=[dict(blocked=hs[0]["blocked"], blsp=hs[0]["blsp"], period=hs[0]["period"], phase=hs[0]["phase"], steps=hs[0]["steps"][:3])],
                schedules=res["histories"], schedules_simulated=len(hs), schedules_short_exhaustive_sample=len(hs_short),
+               schedules_concurrent_ticks=len(hs_conc),
                schedules_conforming=res["conforming"], inconclusive_timing=res["inconclusive_timing"],
                replayed_steps=res["steps"], observations_compared=res["observations"],
                steps_with_several_allowed_states=res["steps_with_several_allowed_states"],
                steps_expect_banned=res["steps_expect_banned"], steps_in_expiry_window=res["steps_in_expiry_window"],
                steps_expect_clean_after_ban=res["steps_expect_clean_after_ban"],
                msg_steps_must_penalise=res["msg_steps_must_penalise"], msg_steps_must_not_penalise=res["msg_steps_must_not_penalise"],
+               penalty_steps_by_spelling=pen_sp, blacklists_by_spelling=bl_sp,
+               gate_spellings_per_observation=res.get("gate_spellings_per_observation"),
+               ticks_with_two_peers_of_one_ip_on_one_procedure=res.get("ticks_with_two_peers_of_one_ip_on_one_procedure", 0),
+               concurrent_schedules_validated=conc_valid, concurrent_schedules_validated_race_build=conc_race_valid,
+               concurrent_ticks=conc_ticks, concurrent_calls=res.get("concurrent_calls", 0), poller_rounds=res.get("poller_rounds", 0),
+               races_parsed=box.get("races_parsed", 0), penalty_call_errors=res.get("penalty_call_errors", 0),
                max_step_skew_ms=res["max_step_skew_ms"], scheduler_stalls=res["scheduler_stalls"],
                loopback_scenarios=len(scen), loopback_scenarios_inconclusive=inc_scen,
                loopback_checks_passed=sum(len(s.get("checks") or []) for s in scen),
+               loopback_table_cases={s["name"]: s["cases"] for s in scen if s.get("cases")},
+               declared_default_limit_and_penalty=list(declared_defaults()),
                spec_states_gater=r1["distinct"], spec_states_rate_limiter=r2["distinct"],
                exhaustive=False,
-               rule="one real connectionGater (+ rateLimit) per TLC schedule; after every step the projection (score, banned, "
-                    "listBannedPeers, outbound and inbound gates over 3 multiaddr forms) must be one of the states allowed by the spec")
+               rule="one real connectionGater (+ rateLimit) per TLC schedule; after every step the projection (score while not banned, "
+                    "outbound and inbound gates over every spelling of the address) must be one of the states allowed by the spec")
     finish(ctx, LEVEL, cov, assumptions=[
         "1 tick = 2 s; actions at the middle of even seconds, sweeps and rate-window resets at the middle of odd seconds (the implementation counts whole Unix seconds)",
         "the wall clock is not stepped during a run",
-        "InterceptUpgraded is not exercised (it receives a network.Conn); IPv4-mapped IPv6 forms and DNS multiaddrs are outside the statement",
+        "InterceptUpgraded is not exercised (it receives a network.Conn); DNS multiaddrs are outside the statement",
+        "an IP is one identity whatever its spelling: dotted IPv4 = IPv4-mapped IPv6 (::ffff:a.b.c.d), IPv6 text forms are equal when they parse to the same 16 bytes",
+        "banned is observed through the gates; listBannedPeers and the expiration field are recorded, not judged (a lazily expiring implementation conforms)",
+        "rate windows: only traffic within the limit under every window placement is judged 'never penalised', only traffic above it under every placement 'penalised' (ConnGater.tla, PenChoices)",
         "loopback scenarios use ban expiration 2 s set through the verif export; the sweep interval of a running Connection is the constant 10 s",
-        "invalid sync requests are represented by Connection.BanPeer, the call pkg/consensus/sync makes for them",
-        "one peer per IP in the rate limiter replay (counters are per peer id, penalties per IP)"])
+        "loopback hosts listen on 127.0.0.1 / .2 / .3 (and 127.0.1.x, 127.0.2.x, 127.0.3.x for table cases); the offender's source address is verified in /proc/net/tcp",
+        "the limit and penalty of a procedure registered without WithRPCMessageCounter are the constants declared in pkg/p2p/ratelimit.go",
+        "the ban threshold of the schedules is MaxScore of the cfg; a tree whose MaxPenaltyScore differs is inconclusive"])
